@@ -897,6 +897,10 @@ def run(ctx):
     vlib.log("concurrency: %s" % json.dumps(conc_stats))
 
     # ---------------------------------------------------------------- 8. classification, evidence
+    bykind = {}
+    for r in recs:
+        bykind[r["kind"]] = bykind.get(r["kind"], 0) + 1
+    vlib.log("violation records by kind (before matching known findings): %s" % json.dumps(bykind, sort_keys=True))
     ctx.classify(recs)
     kinds = {r["kind"] for r in recs}
     if "unloadable_snapshot" not in kinds:
